@@ -13,7 +13,7 @@ import shutil
 import sys
 import time
 
-from . import extract, verus_run, kani_run, props, scan
+from . import extract, verus_run, kani_run, native_run, props, scan
 from .rustscan import ScanError
 
 VERIF = os.path.dirname(os.path.dirname(os.path.abspath(__file__)))
@@ -172,6 +172,17 @@ def do_replay(path):
         log('--- verifier output ---')
         log(data['verifier_output'])
     cex = data.get('counterexample')
+    if cex and cex.get('kind') == 'native':
+        with kani_run.Scratch('replay') as sc:
+            nres, ncmd = native_run.run_bins(sc, [cex['bin']])
+        r = nres[cex['bin']]
+        log('--- bounded stand-in re-run against the real code ---')
+        log(r.output)
+        if r.status == 'failed':
+            log('REPRODUCED: %s fails on the real code' % cex['bin'])
+            return 1
+        log('not reproduced (status=%s)' % r.status)
+        return 0
     if not cex:
         log('no concrete failing input was found by the paired harness; nothing to execute')
         return 0 if not data.get('violation') else 1
@@ -266,8 +277,16 @@ def main(argv=None):
     # ---------------------------------------------------------------- Kani (complete / bounded)
     kani_specs = [k for k in P.get('kani', []) if (k.get('tier', 'quick') == 'quick' or tier == 'thorough')]
     kani_results = {}
+    native_results = {}
     kani_cmd = ''
     need_scratch = (kani_specs or failures or (undecided and P.get('fallback_kani'))) and not args.no_kani
+    # undecided so far may also come from new, uncontracted functions (coverage guard)
+    for u in units:
+        r = unit_results[u]
+        nf = getattr(r.extractor, 'new_functions', None) if r.extractor else None
+        if nf:
+            undecided.append('unit %s: functions not known to the contract set appeared in files under contract: %s'
+                             % (u, ', '.join(nf[:8])))
     scratch = None
     try:
         if need_scratch:
@@ -340,6 +359,35 @@ def main(argv=None):
                                          'rendered': r.log[-3000:], 'label': None, 'safety': True, 'at': k['module'],
                                          'unit': 'kani', '_payload': payload})
 
+        # ------------------------------------------------------------ native bounded stand-ins
+        nat = [n for n in P.get('native', [])
+               if n.get('when', 'undecided') == 'quick' or tier == 'thorough'
+               or (n.get('when', 'undecided') == 'undecided' and undecided)]
+        if nat and not args.no_kani:
+            if scratch is None:
+                try:
+                    scratch = kani_run.Scratch(pid).__enter__()
+                except Exception as e:
+                    undecided.append('scratch: %s' % e)
+            if scratch:
+                nres, ncmd = native_run.run_bins(scratch, [n['bin'] for n in nat], timeout=P.get('native_timeout', 900))
+                for n in nat:
+                    r = nres[n['bin']]
+                    native_results[n['bin']] = (n, r)
+                    log('[native] bounded  %-40s %-9s %.1fs cases=%d' % (n['bin'], r.status, r.time_s, r.cases))
+                    if r.status == 'undecided':
+                        undecided.append('native stand-in %s: %s' % (n['bin'], r.output[-400:]))
+                    elif r.status == 'failed':
+                        ob = 'native.%s' % n['bin']
+                        payload = {'property_id': pid, 'obligation': ob, 'violation': True,
+                                   'verifier_output': 'bounded stand-in %s (bound: %s) found a concrete failing input on the real code:\n%s'
+                                                      % (n['bin'], n.get('bound', ''), r.output[-2500:]),
+                                   'counterexample': {'kind': 'native', 'bin': n['bin'], 'output': r.output[-2500:],
+                                                      'reproduced_on_real_code': True}}
+                        failures.append({'obligation': ob, 'fn': n['bin'], 'kind': 'native', 'message': 'counterexample',
+                                         'rendered': r.output[-2500:], 'label': None, 'safety': True, 'at': 'bounded/src/bin/%s.rs' % n['bin'],
+                                         'unit': 'native', '_payload': payload})
+
         # ------------------------------------------------------------ classify failures
         for fl in failures:
             ob = fl['obligation']
@@ -378,6 +426,9 @@ def main(argv=None):
     ev = build_evidence(pid, P, tier, seed, wall, units, unit_results, canary_results, kani_specs, kani_results,
                         kani_cmd, violations, known_printed, undecided,
                         stability if tier == 'thorough' else None)
+    ev['coverage']['bounded_native'] = [{'bin': n['bin'], 'bound': n.get('bound', ''), 'what': n.get('what', ''),
+                                         'status': r.status, 'cases': r.cases, 'time_s': round(r.time_s, 1)}
+                                        for (n, r) in native_results.values()]
     with open(os.path.join(EVID, pid + '.json'), 'w') as f:
         json.dump(ev, f, indent=1)
     shutil.rmtree(workdir, ignore_errors=True)
@@ -506,4 +557,13 @@ def build_evidence(pid, P, tier, seed, wall, units, unit_results, canary_results
 
 
 if __name__ == '__main__':
-    sys.exit(main())
+    try:
+        rc = main()
+    except SystemExit:
+        raise
+    except BaseException as e:      # a tool failure is never a verdict
+        import traceback
+        traceback.print_exc()
+        print('UNDECIDED: internal error in the checking machinery: %r' % (e,), flush=True)
+        rc = 2
+    sys.exit(rc)
